@@ -212,6 +212,9 @@ class extract_visitor(NodeVisitor):
         for df in node.args.defaults:
             self.visit(df)
 
+        for df in getattr(node.args, 'kw_defaults', []):
+            df and self.visit(df)
+
         if not PY2:
             for a in getattr(node.args, 'posonlyargs', []) + node.args.args:
                 a.annotation and self.visit(a.annotation)
@@ -235,6 +238,9 @@ class extract_visitor(NodeVisitor):
         # type: (ast.Lambda) -> None
         for d in node.args.defaults:
             self.visit(d)
+
+        for d in getattr(node.args, 'kw_defaults', []):
+            d and self.visit(d)
 
         if not PY2:
             for a in getattr(node.args, 'posonlyargs', []) + node.args.args:
